@@ -23,7 +23,7 @@ CONSTANTS
   MaxBinds = 0
   Faults = {}
   AdvMsgs <- AdvSet
-  MaxAdv = 3
+  MaxAdv = 2
   Bridgers = {}
   MaxHandles = 2
   MaxCtr = 1
